@@ -260,15 +260,19 @@ class CoreMixin:
             d.term = r
             facts = [f"(dict_wf {r})"]
             count = []
+            per_key = {}
             for k, (cnd, val) in d.entries.items():
-                facts.append(Eq(f"(dhas {r} {smt.sstr(k)})", cnd))
-                facts.append(Implies(cnd, Eq(f"(dval {r} {smt.sstr(k)})", asV(self.lift(val)))))
+                f1, f2 = Eq(f"(dhas {r} {smt.sstr(k)})", cnd), Implies(cnd, Eq(f"(dval {r} {smt.sstr(k)})", asV(self.lift(val))))
+                facts.extend([f1, f2])
+                per_key[smt.sstr(k)] = [f1, f2]
                 count.append(Ite(cnd, "1", "0"))
             q = fresh_name("sk")
             others = And(*[Not(Eq(q, smt.sstr(k))) for k in d.entries])
             facts.append(f"(forall (({q} String)) (! (=> {others} (not (dhas {r} {q}))) :pattern ((dhas {r} {q}))))")
             facts.append(Eq(f"(seq.len (ditems {r}))", "(+ 0 " + " ".join(count) + ")" if count else "0"))
             self.escape_facts.extend(facts)
+            # engine.vc_text keeps, per obligation, only the entries whose key the rest of the VC mentions
+            self.sdict_facts[r] = {"keys": per_key, "others": facts[-2], "len": facts[-1]}
         return Val(d.term, kind="dict", fresh=TRUE)
 
     def named_object(self, o):
